@@ -289,6 +289,9 @@ def r6(ctx, F, fn):
                             board = {(r2, c - 1): lf(owner), (r2, c + 1): rf(owner)}
                             mv = ("struct", MV + "Normal", (("captured_piece", NONE), ("end", ("pos", r2, c)), ("piece", piece(kind, owner)), ("start", ("pos", r1, c))))
                             a = {("var", mvname): mv, ("field", ("var", "self"), "current_player"): ("variant", PL + owner)}
+                            for (br, bc), content in board.items():     # the same squares read straight from the array
+                                if 0 <= br < 8 and 0 <= bc < 8:
+                                    a[("index", ("field", ("var", "self"), "board"), ("lit", br * 8 + bc))] = content
                             v = hir.fold(EP, a, D, hir.table_helpers(F), chess_evalcalls(board))
                             near = [x for x, cc in ((ln, c - 1), (rn, c + 1)) if 0 <= cc <= 7]
                             want = c if (kind == "Pawn" and abs(r2 - r1) == 2 and "enemy pawn" in near) else 8
